@@ -6,6 +6,7 @@ import (
 	"context"
 	"fmt"
 	"math/rand"
+	"strings"
 	"sync"
 	"time"
 
@@ -318,6 +319,9 @@ func c12Run(w *W, idx int) {
 	}
 	if idx%40 == 18 {
 		c12DebugSession(w, r)
+	}
+	if idx%40 == 38 {
+		c12NestedEvents(w, r)
 	}
 	if plain.Dump != evv.Dump {
 		w.Fail("event-mode-changes-dump", "Dump differs between the plain and the event-mode program\nsource: %s\nconfig: %s\nplain:  %s\nevents: %s", src, ecfg, oneLine(plain.Dump), oneLine(evv.Dump))
@@ -759,5 +763,97 @@ func c12DebugSession(w *W, r *rand.Rand) {
 			w.Fail("event-mode-changes-result/HandleDebugEvent-session", "evaluation %d of a session traced by HandleDebugEvent (i0=%d): plain gives %s, traced gives %s\nsource: %s (options %s, mode %d)", step+1, i0, po, eo, src, opts, mode)
 			return
 		}
+	}
+}
+
+// c12NestedEvents: a rule whose registered operator evaluates a sub-rule on the context it was handed, both rules
+// reporting events, each on a channel of its own. Every rule's stream holds exactly its own applications: the outer
+// stream is what it is when the sub-rule reports nothing, the inner stream what the sub-rule reports when evaluated alone.
+func c12NestedEvents(w *W, r *rand.Rand) {
+	opts := OptSet(r.Intn(16))
+	mode := 1 + r.Intn(2)
+	innerSrc := []string{"(+ i0 (* 2 3) 1)", "(- (* i0 i0) (+ 1 1 1))", "(if (> i0 2) (+ i0 1) (- i0 1 1))"}[r.Intn(3)]
+	outerSrc := []string{"(+ (sub_rule) (- i0 1) (* i0 2))", "(if (> (sub_rule) 3) (- i0 (sub_rule)) (* 2 i0 1))", "(* 1 (+ (sub_rule) i0 i0) (- i0 7))"}[r.Intn(3)]
+	viaTry := r.Intn(2) == 0
+	mkInner := func(events int) *eval.Expr {
+		cc := buildConfig(CaseCfg{Opts: opts, Events: events, VarNames: []string{"i0"}}, nil)
+		e, co := compileGuard(cc, innerSrc)
+		if co.Panic != nil || co.Err != nil {
+			return nil
+		}
+		return e
+	}
+	names := func(evs []EvRec) string {
+		var sb strings.Builder
+		for _, ev := range opExecOnly(evs) {
+			fmt.Fprintf(&sb, "%s%s=%s; ", ev.Op.OpName, argsText(ev.Params), valTextAny(ev.Op.Res))
+		}
+		return sb.String()
+	}
+	vals := map[string]interface{}{"i0": int64(r.Intn(7))}
+	run := func(inner *eval.Expr, innerEvents bool) (Outcome, string, string, bool) {
+		cc := buildConfig(CaseCfg{Opts: opts, Events: mode, VarNames: []string{"i0"}}, nil)
+		var innerStream string
+		cc.OperatorMap["sub_rule"] = func(ctx *eval.Ctx, _ []eval.Value) (eval.Value, error) {
+			call := func() (eval.Value, error) {
+				if viaTry {
+					return inner.TryEval(ctx)
+				}
+				return inner.Eval(ctx)
+			}
+			if !innerEvents {
+				return call()
+			}
+			var v eval.Value
+			var err error
+			evs := collectEvents(inner, 0, func() { v, err = call() })
+			innerStream += names(evs)
+			return v, err
+		}
+		e, co := compileGuard(cc, outerSrc)
+		if co.Panic != nil || co.Err != nil {
+			return co, "", "", false
+		}
+		var o Outcome
+		evs := collectEvents(e, 0, func() {
+			o = guard(func() (eval.Value, error) {
+				return e.Eval(&eval.Ctx{VariableFetcher: &RecFetcher{Vals: vals, Keys: cc.VariableKeyMap}})
+			})
+		})
+		return o, names(evs), innerStream, true
+	}
+	plainInner, evInner := mkInner(0), mkInner(mode)
+	if plainInner == nil || evInner == nil {
+		w.Fail("nested-events/compile", "%s does not compile", innerSrc)
+		return
+	}
+	o1, outer1, _, ok1 := run(plainInner, false)
+	o2, outer2, inner2, ok2 := run(evInner, true)
+	if !ok1 || !ok2 {
+		w.Fail("nested-events/compile", "%s does not compile", outerSrc)
+		return
+	}
+	// the sub-rule evaluated alone
+	var alone string
+	{
+		var evs []EvRec
+		cc := buildConfig(CaseCfg{Opts: opts, VarNames: []string{"i0"}}, nil)
+		evs = collectEvents(evInner, 0, func() {
+			guard(func() (eval.Value, error) {
+				ctx := &eval.Ctx{VariableFetcher: &RecFetcher{Vals: vals, Keys: cc.VariableKeyMap}}
+				if viaTry {
+					return evInner.TryEval(ctx)
+				}
+				return evInner.Eval(ctx)
+			})
+		})
+		alone = names(evs)
+	}
+	w.Evals += 3
+	w.Inc("nested_event_rules")
+	calls := strings.Count(outer1, "sub_rule")
+	if !outcomeEq(o1, o2) || outer1 != outer2 || inner2 != strings.Repeat(alone, calls) {
+		w.Fail("events/nested-rules-streams-mixed", "an event-reporting rule whose operator evaluates an event-reporting sub-rule (own channel) on the same context\nouter: %s   sub-rule: %s   (options %s, mode %d, i0=%v, sub-rule through TryEval: %v)\nresult with a silent sub-rule: %s, with a reporting one: %s\nouter OP_EXEC stream with a silent sub-rule:   %s\nouter OP_EXEC stream with a reporting sub-rule: %s\nsub-rule stream inside the outer evaluation: %s\nsub-rule stream alone (x%d expected):          %s",
+			outerSrc, innerSrc, opts, mode, vals["i0"], viaTry, o1, o2, outer1, outer2, inner2, calls, alone)
 	}
 }
